@@ -59,8 +59,7 @@ type Scenario struct {
 // Variant says which repairs the tree under test contains (probed, see probe.go).
 type Variant struct {
 	FixCache, FixSnap, FixPersist bool
-	// InitRetry: a failed lazy initialisation is NOT remembered for event queries (the repair of
-	// C05's L16, not in the tree yet): the harness then re-arms the model after the failing access.
+	// InitRetry: a failed lazy initialisation is NOT remembered (c8ac4a7): the model's `fixInit`.
 	InitRetry bool
 	// DefaultInitFloorAware: a Blockchain built WITHOUT an initialiser option copes with a pruned
 	// database (the repair of the second open finding): the model then restarts floor-aware.
@@ -824,7 +823,7 @@ func (w *World) do(op Op) {
 		w.Node.F.mu.Unlock()
 		w.ask("restartfault")
 		// the access that hits the transient error fails legitimately
-		w.restartProbe("err:io")
+		w.restartProbe2("err:io", false)
 		w.Node.F.mu.Lock()
 		armed := w.Node.F.failReadKey != nil
 		w.Node.F.failReadKey = nil
@@ -832,11 +831,8 @@ func (w *World) do(op Op) {
 		if armed {
 			w.Res.Fatalf("injected read failure was not consumed by the initialiser")
 		}
-		if w.V.InitRetry {
-			w.ask("restart") // the repaired code forgets the failure: the model is re-armed
-		} else {
-			w.Faulted = true
-		}
+		// before c8ac4a7 the failure was remembered (the model follows: cfg fixInit = InitRetry)
+		w.Faulted = !w.V.InitRetry
 		w.Res.Hit("fault:failed-lazy-initialisation")
 	case "restartcrash":
 		w.crashInInit(op.N)
@@ -859,7 +855,7 @@ type DrvPool struct {
 }
 
 func cfgLine(v Variant) string {
-	return fmt.Sprintf("cfg %x %x %s %s %s", W, blockchain.AggregatedBloomFilterCacheSize, b2s(v.FixCache), b2s(v.FixSnap), b2s(v.FixPersist))
+	return fmt.Sprintf("cfg %x %x %s %s %s %s", W, blockchain.AggregatedBloomFilterCacheSize, b2s(v.FixCache), b2s(v.FixSnap), b2s(v.FixPersist), b2s(v.InitRetry))
 }
 
 func (p *DrvPool) spawn() *lib.Driver {
@@ -1029,7 +1025,10 @@ func (w *World) fork(name string, r *lib.RNG, id uint64, pool *DrvPool, v Varian
 
 // restartProbe forces the lazy initialiser with a one-block query on the head's window (it loads the
 // running window only, the cache is not touched) and compares its outcome with the model's restart.
-func (w *World) restartProbe(modelRestart string) {
+func (w *World) restartProbe(modelRestart string) { w.restartProbe2(modelRestart, true) }
+
+// restartProbe2 with askModel = false: the probe IS the failing first access the model's step stands for.
+func (w *World) restartProbe2(modelRestart string, askModel bool) {
 	if len(w.Chain) == 0 {
 		return
 	}
@@ -1044,11 +1043,13 @@ func (w *World) restartProbe(modelRestart string) {
 		impl = "err:" + pg.Err
 	}
 	if w.Drv != nil && !w.drvDead {
-		model := w.ask(fmt.Sprintf("qp %s %x %x - - 1 0 %x -", strings.NewReplacer("A=", "", "K=", "").Replace(q.F.String()), q.From, q.To, head))
-		if strings.HasPrefix(model, "ok") {
-			model = "ok"
+		if askModel {
+			model := w.ask(fmt.Sprintf("qp %s %x %x - - 1 0 %x -", strings.NewReplacer("A=", "", "K=", "").Replace(q.F.String()), q.From, q.To, head))
+			if strings.HasPrefix(model, "ok") {
+				model = "ok"
+			}
+			w.compare("restart-outcome", impl, model)
 		}
-		w.compare("restart-outcome", impl, model)
 		if q.From <= head {
 			w.compare("restart-result", impl, modelRestart)
 		}
